@@ -174,7 +174,7 @@ CHECKS = {
              "deterministic JAX programs (indexing, reductions, dot/transpose, int/bool/complex intermediates, casts, cond, scan/fori) over scalar, "
              "array and pytree arguments: jvp_estimate / grad_estimate / estimate vs jax.jvp / jax.grad / f; JAX library functions that carry their own derivative rule or wrap a sub-jaxpr (jax.nn.relu / relu6 / softplus / softmax, logsumexp, jax.checkpoint, user custom_jvp and custom_vjp with non-standard rules, also inside cond / scan) - a repaired defect: every custom_jvp_call raised NotImplementedError; random straight-line programs vs the "
              "Lean interpreter; random programs of the richer language (mixed-output helpers, scans with mixed carries, conds, zero-tangent and integer inputs) built both as JAX functions and as driver terms: jvp_estimate vs the model, vs jax.jvp, and the proved witnesses replayed on the implementation.",
-        note=TB + "C15 (partial): the per-primitive JVP rules are assumed lawful (Prim.Lawful, checked against jax.jvp on every generated case); tangent shapes, complex values and dtype conversions are covered only by the corpus; three open findings (loud exceptions): adev-cond-output-count, adev-cond-literal-operand, adev-pjit-int-tangent.",
+        note=TB + "C15 (partial): the per-primitive JVP rules are assumed lawful (Prim.Lawful, checked against jax.jvp on every generated case); tangent shapes, complex values and dtype conversions are covered only by the corpus; three interpreter limits found with the model (multi-output cond branches, literal cond operands, integer outputs of jitted helpers) were repaired (c02ba82, 00a3509, 3a42c1e) and are hard checks now.",
         technique="Lean 4 proof of the interpreter skeleton + differential corpus against jax.jvp / jax.grad",
         design="§3 C15"),
     "C17": dict(
